@@ -164,6 +164,11 @@ func c06GenProgram(rt *rapid.T, maxBody int) []prog.Op {
 				size = rapid.IntRange(1000, maxBody).Draw(rt, "bigsize")
 			}
 			body := prog.Pattern(size, rapid.Uint64Range(0, 1<<20).Draw(rt, "seed"))
+			if rapid.IntRange(0, 7).Draw(rt, "baddigest") == 0 {
+				// refused (wrong Content-MD5): whatever the upload holds for that number stays
+				ops = append(ops, prog.Op{K: "part", Ref: u, PartN: pn, Body: body, Via: "bad-md5"})
+				continue
+			}
 			ops = append(ops, prog.Op{K: "part", Ref: u, PartN: pn, Body: body})
 			if !sh.gone[u] {
 				sh.parts[u][pn] = true
@@ -266,6 +271,7 @@ func c06Run(t *testing.T, c *evid.Collector) {
 				{init0, {K: "part", Ref: 0, PartN: 1, Body: b("aaa")}, {K: "part", Ref: 0, PartN: 1, Body: b("AAAA")}, {K: "part", Ref: 0, PartN: 10000, Body: b("z")}, {K: "complete", Ref: 0, Parts: []prog.Part{{N: 1, Tag: "stale"}, {N: 10000}}}, {K: "complete", Ref: 0, Parts: []prog.Part{{N: 1}, {N: 10000}}}},
 				{{K: "put", B: "bk0", Key: "m0", Body: b("old")}, init0, {K: "part", Ref: 0, PartN: 2, Body: b("two")}, {K: "part", Ref: 0, PartN: 5, Body: b("five")}, {K: "complete", Ref: 0, Parts: []prog.Part{{N: 5}, {N: 2}}}, {K: "complete", Ref: 0, Parts: []prog.Part{{N: 2}, {N: 3}}}, {K: "complete", Ref: 0, Parts: []prog.Part{{N: 2, Tag: "wrong"}}}, {K: "abort", Ref: 0}, {K: "get", B: "bk0", Key: "m0"}},
 				{init0, init0, {K: "part", Ref: 0, PartN: 1, Body: b("first upload")}, {K: "part", Ref: 1, PartN: 1, Body: b("second upload")}, {K: "complete", Ref: 1, Parts: []prog.Part{{N: 1}}}, {K: "complete", Ref: 0, Parts: []prog.Part{{N: 1}}}},
+				{init0, {K: "part", Ref: 0, PartN: 1, Body: b("the good part one")}, {K: "part", Ref: 0, PartN: 1, Body: b("corrupted on the way"), Via: "bad-md5"}, {K: "part", Ref: 0, PartN: 2, Body: b("never accepted"), Via: "bad-md5"}, {K: "complete", Ref: 0, Parts: []prog.Part{{N: 1}, {N: 2}}}, {K: "complete", Ref: 0, Parts: []prog.Part{{N: 1}}}, {K: "get", B: "bk0", Key: "m0"}},
 				{init0, {K: "part", Ref: 0, PartN: 0, Body: b("x")}, {K: "part", Ref: 0, PartN: 10001, Body: b("x")}, {K: "part", Ref: 0, PartN: 3, Body: b("x")}, {K: "complete", Ref: 0, Parts: []prog.Part{{N: 3}}}, {K: "part", Ref: 0, PartN: 3, Body: b("late")}},
 			}
 			{
